@@ -316,6 +316,41 @@ def run(tier, rep):
             slow.append((q["id"], r["ms"]))
     by_id = {q["id"]: (q, r) for q, r in zip(reqs, res)}
 
+    # ---- A5 the web playground's entry points (crates/wasm-app: execute, compile_to_core/mono/anf/go, get_cst/ast/tast): the
+    # same library behind its own glue, on the calling thread's stack; a seeded sample of all text inputs and the family programs
+    WEB_FNS = ["execute", "compile_to_core", "compile_to_mono", "compile_to_anf", "compile_to_go", "get_cst", "get_ast", "get_tast"]
+    pool = [(i, t) for i, t in inputs.items() if not i.startswith("nest#")]
+    rnd.shuffle(pool)
+    pool = pool[: 4000 if quick else 40000] + [(i, t) for i, t in inputs.items() if i.startswith("nest#") and "#" in i]
+    fam_single = [c_ for c_ in cases if not c_.get("extra_files")]
+    wreqs = [{"id": "web-" + i, "text": t, "limit_s": TIME_LIMIT_S} for i, t in pool]
+    wreqs += [{"id": "web-fam#" + c_["id"], "text": open(c_["path"], encoding="utf-8").read(), "limit_s": TIME_LIMIT_S} for c_ in fam_single[:: (4 if quick else 1)]]
+    wres = gv_robust("web", wreqs)
+    web_runs = 0
+    for q, r in zip(wreqs, wres):
+        if r.get("fatal") or r.get("verdict") == "abort":
+            v = "timeout" if r.get("fatal") == "timeout" else ("abort" if r.get("verdict") == "abort" else "panic")
+            rid = q["id"] + "#all"
+            records.append({"id": rid, "entry": "web", "verdict": v, "err_stages": [], "n_err": 0, "bad_pos": 0, "has_output": True})
+            by_id[rid] = (q, {"verdict": v, "at": r.get("at"), "msg": r.get("msg")})
+            classes["web:" + v] += 1
+            continue
+        for fn_ in WEB_FNS:
+            o = r["out"].get(fn_, {})
+            rid = q["id"] + "#" + fn_
+            web_runs += 1
+            if "panic" in o:
+                records.append({"id": rid, "entry": "web", "verdict": "panic", "err_stages": [], "n_err": 0, "bad_pos": 0, "has_output": True})
+                by_id[rid] = (q, {"verdict": "panic", "at": o["panic"], "msg": o.get("msg")})
+                classes["web:panic"] += 1
+            else:
+                txt = o.get("ok", "")
+                rej = txt.startswith("error")
+                records.append({"id": rid, "entry": "web", "verdict": "rejected" if rej else "ok", "err_stages": ["message"] if rej else [], "n_err": 1 if rej else 0,
+                                "bad_pos": 0, "has_output": bool(txt) or fn_ not in ("compile_to_go", "get_ast", "execute")})      # a text without items has empty dumps
+                by_id[rid] = (q, {"verdict": "rejected" if rej else "ok", "msg": txt[:300]})
+                classes["web:" + ("rejected" if rej else "ok")] += 1
+    rep.coverage["playground_runs"] = web_runs
     # ---- B layouts (in process and through `run`)
     lc = run_tlc("Layouts", "Layouts.cfg", workers=2, xmx="2g", timeout=600)
     layouts = lc.json_prints("LAYOUT")
@@ -464,10 +499,10 @@ def run(tier, rep):
         for pr in probs:
             if pr.startswith("no-result"):
                 where = r.get("at") or "?"
-                src_ = rid if cls in ("fam", "artifact") or cls.startswith("cli-") else cls
+                src_ = rid if cls in ("fam", "artifact") or cls.startswith("cli-") else (cls + ":" + rid.split("#")[-1] if cls.startswith("web-") else cls)
                 ident = f"{pr.split(':')[1]}:{where}:{src_}" if r["verdict"] in ("panic", "signal", "abort") else f"timeout:{cls}:{rid.split('#')[1] if cls.startswith('cli-nest') else ''}".rstrip(":")
             else:
-                ident = f"{pr}:{cls}"
+                ident = f"{pr}:{cls}" + (":" + rid.split("#")[-1] if cls.startswith("web-") else "")
             detail = {"run": rid, "verdict": r["verdict"], "message": (r.get("msg") or r.get("stderr") or "")[:400],
                       "diagnostics": [x["msg"] for x in r.get("diags", [])][:4], "input": (q.get("text") or json.dumps({k: v for k, v in q.items() if k != "text"}))[-2500:]}
             rep.violation(ident, detail, replay={"request": q})
